@@ -133,7 +133,7 @@ def replay(rep, case):
 
 
 def replay_history(rep, prop, c):
-    o = _run_history({"hist": c["history"], "inspect": c.get("inspect", False), "translated": prop == "C07"})
+    o = _run_history({"hist": c["history"], "inspect": c.get("inspect", False), "translated": prop == "C07", "both_modes": prop == "C15"})
     n = 6
     tcfg = corpus._cfg("Trace_SurveyObject.cfg", "SPECIFICATION TSpec\n" + SO_CFG % n + "CONSTRAINT Accepted\nCHECK_DEADLOCK FALSE\n")
     a, info = tlc.validate_traces("Trace_SurveyObject", tcfg, [o["trace"]], shards=1, env={"PROP": prop}, tag="replay")
@@ -179,11 +179,18 @@ def _run_history(job):
             q0.bind["required"] = "yes"            # the caller edits the logic of one question through the object API
             trace.append({"op": "mark", "name": arg})
             continue
-        ev = {"op": "render", "outcome": "ok", "required_on": [], "unique_siblings": False, "binds_once": False, "controls_once": False, "closure": False,
+        ev = {"op": "render", "outcome": "ok", "required_on": [], "modes_agree": False, "unique_siblings": False, "binds_once": False, "controls_once": False, "closure": False,
               "refs_resolve": False, "same_ids": False, "has_refs": False}
         try:
             x = s.to_xml(validate=False, pretty_print=False)
             root = project.parse(x)
+            if job.get("both_modes"):
+                # the pretty rendering of the same object at the same moment is the same document
+
+                def st(e):
+                    return (e.tag, tuple(sorted(e.attrib.items())), (e.text or "").strip(), tuple(st(k) for k in e))
+
+                ev["modes_agree"] = st(project.parse(s.to_xml(validate=False, pretty_print=True))) == st(root)
             inst = [tuple(n["p"]) for n in project.instance_preorder(root) if not n["tmpl"]]
             binds = [b["nodeset"] for b in project.binds(root)]
             refs = [c["ref"] for c in project.body_preorder(root)]
@@ -219,7 +226,7 @@ def part_histories(rep, prop=None):
     hists = [c for c in cases if sum(1 for h in c["hist"] if h[0] == "render") >= 1]
     hists = corpus.pick(hists, 1500 if rep.tier == "quick" else 20000, rep.seed)
     rep.bounds["survey_object_histories"] = {"max_ops": n, "replayed": len(hists)}
-    outs = conv.map_cases(_run_history, [{"hist": h["hist"], "inspect": h.get("inspect", False), "translated": prop == "C07"} for h in hists], chunksize=16)
+    outs = conv.map_cases(_run_history, [{"hist": h["hist"], "inspect": h.get("inspect", False), "translated": prop == "C07", "both_modes": prop == "C15"} for h in hists], chunksize=16)
     for o in outs:
         if o.get("status") == "harness_error":
             raise tlc.MachineryError(o["message"] + "\n" + o.get("tb", ""))
@@ -244,6 +251,11 @@ def part_histories(rep, prop=None):
         t2 = copy.deepcopy(b2["trace"])
         [e for e in t2 if e["op"] == "render" and e["outcome"] == "ok"][-1]["refs_resolve"] = False
         cans.append(t2)
+    if prop == "C15":
+        b4 = next(o for i, o in enumerate(outs) if i in acc and sum(1 for e in o["trace"] if e["op"] == "render" and e["outcome"] == "ok") >= 2)
+        t4 = copy.deepcopy(b4["trace"])
+        [e for e in t4 if e["op"] == "render" and e["outcome"] == "ok"][-1]["modes_agree"] = False
+        cans.append(t4)
     if prop == "C05":
         # an attribute given to one question showing up on another question's bind as well
         b3 = next(o for i, o in enumerate(outs) if i in acc and any(e["op"] == "mark" for e in o["trace"]) and o["trace"][-1]["op"] == "render" and o["trace"][-1]["outcome"] == "ok"
@@ -259,3 +271,5 @@ def part_histories(rep, prop=None):
         rep.extra["canaries_rejected"].append("dangling_itext_reference_after_a_second_render")
     if prop == "C05":
         rep.extra["canaries_rejected"].append("logic_attribute_leaked_to_another_bind")
+    if prop == "C15":
+        rep.extra["canaries_rejected"].append("pretty_rendering_of_an_earlier_state")
